@@ -1,6 +1,1270 @@
-//! C07 — stub: correspondence harness not built yet.
+//! C07 — the inverted index records exactly the terms, documents, frequencies, positions.
+//!
+//! Part (a): generated collections are indexed by the real `IndexWriter` into one segment and
+//! everything is read back through `SegmentReader::inverted_index` (term stream, doc_freq,
+//! postings by advance and by seek programs, positions, total_num_tokens, fieldnorms) and
+//! compared (oracle) with an independent Rust inversion of the analysed corpus and (model) with
+//! the Lean model's `invert` of the same analysed corpus.
+//! Part (b): the codecs underneath (VInt, bit widths, fieldnorm table, postings blocks + skip
+//! data, seek, positions, in-block search) are cross-checked against the Lean model byte for
+//! byte, and against their own round trip (oracle).
+use crate::c07_util::*;
+use crate::model::{hex, nat_list, unhex};
+use crate::report::fnv;
+use crate::rng::Rng;
 use crate::Ctx;
+use serde_json::{json, Value as J};
+use std::collections::BTreeSet;
+use std::panic::{catch_unwind, AssertUnwindSafe};
+use tantivy::directory::OwnedBytes;
+use tantivy::fieldnorm::FieldNormReader;
+use tantivy::positions::{PositionReader, PositionSerializer};
+use tantivy::postings::serializer::PostingsSerializer;
+use tantivy::postings::{Postings, SegmentPostings};
+use tantivy::schema::{Field, IndexRecordOption};
+use tantivy::verif::{c07_open_block_postings, c07_search_block, c07_segment_postings};
+use tantivy::{DocSet, Term, TERMINATED};
+use tantivy_common::{BinarySerializable, VInt};
+
+fn panic_msg(p: Box<dyn std::any::Any + Send>) -> String {
+    if let Some(s) = p.downcast_ref::<&str>() {
+        s.to_string()
+    } else if let Some(s) = p.downcast_ref::<String>() {
+        s.clone()
+    } else {
+        "panic".into()
+    }
+}
+
+fn short(s: &str) -> String {
+    if s.len() > 160 { format!("{}…({} chars)", &s[..160], s.len()) } else { s.to_string() }
+}
+
+// ------------------------------------------------------------------------------------------
+// model availability
+// ------------------------------------------------------------------------------------------
+#[derive(Default, Clone)]
+struct Avail {
+    missing: BTreeSet<&'static str>,
+}
+
+const OPS: [(&str, &str); 13] = [
+    ("seekfull", "C07 seekfull basic 1 81 A"),
+    ("invert", "C07 invert basic 61:0:1"),
+    ("vint_enc", "C07 vint_enc 0"),
+    ("vint_dec", "C07 vint_dec 80"),
+    ("numbits", "C07 numbits 0"),
+    ("fn_to_id", "C07 fn_to_id 0"),
+    ("id_to_fn", "C07 id_to_fn 0"),
+    ("enc", "C07 enc basic 1 1"),
+    ("dec", "C07 dec basic 1 81"),
+    ("seek", "C07 seek basic 1 81 A"),
+    ("pos_enc", "C07 pos_enc 1"),
+    ("pos_read", "C07 pos_read 8001 0 1"),
+    ("blocksearch", ""),
+];
+
+fn probe(ctx: &mut Ctx) -> Avail {
+    let mut a = Avail::default();
+    for (op, req) in OPS {
+        let req = if op == "blocksearch" {
+            format!("C07 blocksearch {} 5", nat_list(&(0..128u32).collect::<Vec<_>>()))
+        } else {
+            req.to_string()
+        };
+        let r = ctx.model.ask(&req);
+        if r == "bad-op" || r.is_empty() {
+            a.missing.insert(op);
+            ctx.report.count(&format!("model:unavailable:{op}"));
+        }
+    }
+    if !a.missing.is_empty() {
+        let list: Vec<&str> = a.missing.iter().cloned().collect();
+        ctx.report.notes.push(format!("model ops unavailable: {}", list.join(",")));
+        if a.missing.contains("invert") {
+            ctx.report.notes.push("model invert unavailable".into());
+        }
+        ctx.report.violation(
+            "model",
+            "C07:model-unavailable",
+            format!("the Lean driver answers bad-op for: {}", list.join(",")),
+            json!({"kind": "probe"}),
+        );
+    }
+    a
+}
+
+impl Avail {
+    fn has(&self, op: &str) -> bool {
+        !self.missing.contains(op)
+    }
+}
+
+// ------------------------------------------------------------------------------------------
+// seek programs
+// ------------------------------------------------------------------------------------------
+#[derive(Clone, Copy, Debug, PartialEq, Eq)]
+enum Op {
+    A,
+    S(u32),
+}
+
+fn program_text(p: &[Op]) -> String {
+    p.iter().map(|o| match o { Op::A => "A".to_string(), Op::S(t) => format!("S{t}") }).collect::<Vec<_>>().join(",")
+}
+
+fn parse_program(s: &str) -> Option<Vec<Op>> {
+    if s.is_empty() || s == "-" {
+        return Some(vec![]);
+    }
+    s.split(',').map(|t| if t == "A" { Some(Op::A) } else { t.strip_prefix('S').and_then(|n| n.parse().ok()).map(Op::S) }).collect()
+}
+
+/// index into `docs` after each op (docs.len() = terminated); the cursor starts at index 0
+fn simulate(docs: &[u32], prog: &[Op]) -> Vec<usize> {
+    let mut cur = 0usize;
+    let mut out = vec![];
+    for op in prog {
+        match *op {
+            Op::A => {
+                if cur < docs.len() {
+                    cur += 1;
+                }
+            }
+            Op::S(t) => {
+                while cur < docs.len() && docs[cur] < t {
+                    cur += 1;
+                }
+            }
+        }
+        out.push(cur);
+    }
+    out
+}
+
+fn gen_program(rng: &mut Rng, docs: &[u32]) -> Vec<Op> {
+    let n = docs.len();
+    let nops = 2 + rng.usize_below(if n > 128 { 24 } else { 11 });
+    let mut after_end = 0;
+    let mut prog = vec![];
+    let mut cur = 0usize;
+    let doc_at = |i: usize| if i < n { docs[i] } else { TERMINATED };
+    for _ in 0..nops {
+        let cur_doc = doc_at(cur);
+        let op = if rng.chance(2, 5) {
+            Op::A
+        } else {
+            let t = match rng.below(12) {
+                0 => cur_doc,
+                1 if prog.len() + 3 >= nops || rng.chance(1, 4) => TERMINATED,
+                9 | 10 | 11 if cur < n => {
+                    // a near jump, often across the next block boundary
+                    let i = cur + rng.usize_below((n - cur).min(140));
+                    doc_at(i)
+                }
+                2 | 3 if cur < n => {
+                    // a block boundary of the list at or after the cursor
+                    let cands: Vec<usize> = [126usize, 127, 128, 129, 254, 255, 256, 257, 383, 384, 385, n - 1]
+                        .iter().cloned().filter(|i| *i >= cur && *i < n).collect();
+                    doc_at(*rng.pick(&cands))
+                }
+                4 if cur < n => {
+                    let i = cur + rng.usize_below(n - cur);
+                    doc_at(i)
+                }
+                5 if cur < n => {
+                    let i = cur + rng.usize_below((n - cur).min(4));
+                    doc_at(i).saturating_add(1).min(TERMINATED)
+                }
+                6 if cur < n => {
+                    let i = cur + rng.usize_below(n - cur);
+                    doc_at(i).saturating_sub(1).max(cur_doc)
+                }
+                7 if rng.chance(1, 3) => cur_doc.saturating_add(1 << rng.below(31)).min(TERMINATED),
+                _ => cur_doc.saturating_add(rng.below(300) as u32).min(TERMINATED),
+            };
+            Op::S(t.max(cur_doc))
+        };
+        let start = cur.min(n);
+        cur = start + simulate(&docs[start..], &[op])[0];
+        prog.push(op);
+        if cur >= n {
+            after_end += 1;
+            if after_end >= 2 {
+                break;
+            }
+        }
+    }
+    prog
+}
+
+/// drive a real SegmentPostings with a program: (doc, tf, positions) after each op
+fn run_program(sp: &mut SegmentPostings, prog: &[Op], with_positions: bool) -> Vec<(u32, u32, Vec<u32>)> {
+    let mut out = vec![];
+    let mut buf = vec![];
+    for op in prog {
+        let d = match *op {
+            Op::A => sp.advance(),
+            Op::S(t) => sp.seek(t),
+        };
+        let d2 = sp.doc();
+        if d != d2 {
+            out.push((d, u32::MAX, vec![d2]));
+            continue;
+        }
+        if d == TERMINATED {
+            out.push((d, 0, vec![]));
+        } else {
+            let tf = sp.term_freq();
+            buf.clear();
+            if with_positions {
+                sp.positions(&mut buf);
+            }
+            out.push((d, tf, buf.clone()));
+        }
+    }
+    out
+}
+
+fn expected_program(list: &[(u32, u32, Vec<u32>)], prog: &[Op]) -> Vec<(u32, u32, Vec<u32>)> {
+    let docs: Vec<u32> = list.iter().map(|p| p.0).collect();
+    simulate(&docs, prog).into_iter().map(|i| if i < list.len() { list[i].clone() } else { (TERMINATED, 0, vec![]) }).collect()
+}
+
+fn read_all(sp: &mut SegmentPostings, with_positions: bool) -> Vec<(u32, u32, Vec<u32>)> {
+    let mut out = vec![];
+    let mut buf = vec![];
+    let mut d = sp.doc();
+    while d != TERMINATED {
+        let tf = sp.term_freq();
+        buf.clear();
+        if with_positions {
+            sp.positions(&mut buf);
+        }
+        out.push((d, tf, buf.clone()));
+        let prev = d;
+        d = sp.advance();
+        if d != TERMINATED && d <= prev {
+            out.push((d, u32::MAX, vec![]));
+            break;
+        }
+        if out.len() > 20_000_000 {
+            break;
+        }
+    }
+    out
+}
+
+fn first_diff<T: PartialEq + std::fmt::Debug>(a: &[T], b: &[T]) -> String {
+    for i in 0..a.len().max(b.len()) {
+        if a.get(i) != b.get(i) {
+            return format!("index {i}: expected {:?} got {:?} (lengths {} vs {})", a.get(i), b.get(i), a.len(), b.len());
+        }
+    }
+    "equal".into()
+}
+
+// ------------------------------------------------------------------------------------------
+// part (b): codecs
+// ------------------------------------------------------------------------------------------
+fn check_vint(ctx: &mut Ctx, av: &Avail, n: u64) {
+    let case = json!({"kind": "vint", "n": n.to_string()});
+    ctx.report.case(&format!("vint|{n}"), true);
+    ctx.report.count("codec:vint");
+    let mut real = vec![];
+    VInt(n).serialize_into_vec(&mut real);
+    ctx.report.count(&format!("vint-bytes:{}", real.len()));
+    // oracle: round trip, consumed = len, also with trailing junk
+    let mut with_junk = real.clone();
+    with_junk.extend_from_slice(&[0x55, 0x80]);
+    let mut cur: &[u8] = &with_junk;
+    match VInt::deserialize(&mut cur) {
+        Ok(v) if v.0 == n && with_junk.len() - cur.len() == real.len() => {}
+        other => ctx.report.violation("oracle", "C07:codec-roundtrip", format!("VInt({n}) -> {} -> {:?}", hex(&real), other.map(|v| v.0).map_err(|e| e.to_string())), case.clone()),
+    }
+    if av.has("vint_enc") {
+        let m = ctx.model.ask(&format!("C07 vint_enc {n}"));
+        if m != hex(&real) {
+            ctx.report.violation("model", "C07:model-vint", format!("vint_enc {n}: real {} model {m}", hex(&real)), case.clone());
+        }
+    }
+    if av.has("vint_dec") {
+        let m = ctx.model.ask(&format!("C07 vint_dec {}", hex(&with_junk)));
+        if m != format!("{n} {}", real.len()) {
+            ctx.report.violation("model", "C07:model-vint", format!("vint_dec {}: real {n} {} model {m}", hex(&with_junk), real.len()), case.clone());
+        }
+        // truncated inputs: every proper prefix has no stop byte
+        for cut in 0..real.len() {
+            let pre = &real[..cut];
+            let mut cur: &[u8] = pre;
+            let r = VInt::deserialize(&mut cur);
+            let m = ctx.model.ask(&format!("C07 vint_dec {}", hex(pre)));
+            ctx.report.count("codec:vint-truncated");
+            if r.is_ok() {
+                ctx.report.violation("oracle", "C07:codec-roundtrip", format!("VInt::deserialize accepts truncated {}", hex(pre)), case.clone());
+            } else if m != "err" {
+                ctx.report.violation("model", "C07:model-vint", format!("vint_dec of truncated {}: real Err, model {m}", hex(pre)), case.clone());
+            }
+        }
+    }
+}
+
+fn check_numbits(ctx: &mut Ctx, av: &Avail, n: u64) {
+    ctx.report.case(&format!("numbits|{n}"), true);
+    ctx.report.count("codec:numbits");
+    let real = tantivy_bitpacker::compute_num_bits(n);
+    if av.has("numbits") {
+        let m = ctx.model.ask(&format!("C07 numbits {n}"));
+        if m != real.to_string() {
+            ctx.report.violation("model", "C07:model-numbits", format!("compute_num_bits({n}) = {real}, model {m}"), json!({"kind": "numbits", "n": n.to_string()}));
+        }
+    }
+}
+
+fn check_fieldnorm_id(ctx: &mut Ctx, av: &Avail, id: u8) {
+    ctx.report.case(&format!("id_to_fn|{id}"), true);
+    ctx.report.count("codec:id_to_fn");
+    let case = json!({"kind": "fieldnorm-id", "id": id});
+    let f = FieldNormReader::id_to_fieldnorm(id);
+    if FieldNormReader::fieldnorm_to_id(f) != id {
+        ctx.report.violation("oracle", "C07:fieldnorm-bracket", format!("fieldnorm_to_id(id_to_fieldnorm({id})={f}) = {}", FieldNormReader::fieldnorm_to_id(f)), case.clone());
+    }
+    if id > 0 && FieldNormReader::id_to_fieldnorm(id - 1) >= f {
+        ctx.report.violation("oracle", "C07:fieldnorm-bracket", format!("id_to_fieldnorm not strictly increasing at {id}"), case.clone());
+    }
+    if av.has("id_to_fn") {
+        let m = ctx.model.ask(&format!("C07 id_to_fn {id}"));
+        if m != f.to_string() {
+            ctx.report.violation("model", "C07:model-fieldnorm", format!("id_to_fieldnorm({id}) = {f}, model {m}"), case);
+        }
+    }
+}
+
+fn check_fieldnorm_n(ctx: &mut Ctx, av: &Avail, n: u32) {
+    ctx.report.case(&format!("fn_to_id|{n}"), true);
+    ctx.report.count("codec:fn_to_id");
+    let case = json!({"kind": "fieldnorm-n", "n": n});
+    let id = FieldNormReader::fieldnorm_to_id(n);
+    let back = FieldNormReader::id_to_fieldnorm(id);
+    let next_ok = id == 255 || FieldNormReader::id_to_fieldnorm(id + 1) > n;
+    if back > n || !next_ok {
+        ctx.report.violation("oracle", "C07:fieldnorm-bracket", format!("fieldnorm_to_id({n}) = {id}: id_to_fieldnorm(id) = {back} must be the largest table entry <= n"), case.clone());
+    }
+    if n > 0 && FieldNormReader::fieldnorm_to_id(n - 1) > id {
+        ctx.report.violation("oracle", "C07:fieldnorm-bracket", format!("fieldnorm_to_id not monotone at {n}"), case.clone());
+    }
+    if av.has("fn_to_id") {
+        let m = ctx.model.ask(&format!("C07 fn_to_id {n}"));
+        if m != id.to_string() {
+            ctx.report.violation("model", "C07:model-fieldnorm", format!("fieldnorm_to_id({n}) = {id}, model {m}"), case);
+        }
+    }
+}
+
+fn real_postings_bytes(opt: Opt, docs: &[u32], tfs: &[u32]) -> Vec<u8> {
+    let mut ser = PostingsSerializer::new(0.0, opt.real(), None);
+    ser.new_term(docs.len() as u32, true);
+    for (d, t) in docs.iter().zip(tfs) {
+        ser.write_doc(*d, *t);
+    }
+    let mut out = vec![];
+    ser.close_term(docs.len() as u32, &mut out).unwrap();
+    out
+}
+
+fn real_positions_bytes(per_doc: &[Vec<u32>]) -> Vec<u8> {
+    let mut out = vec![];
+    {
+        let mut ser = PositionSerializer::new(&mut out);
+        for d in per_doc {
+            ser.write_positions_delta(d);
+        }
+        ser.close_term().unwrap();
+        ser.close().unwrap();
+    }
+    out
+}
+
+fn open_real(opt: Opt, requested: Opt, n: u32, bytes: &[u8], positions: Option<Vec<u8>>) -> Result<SegmentPostings, String> {
+    let b = c07_open_block_postings(n, bytes.to_vec(), opt.real(), requested.real()).map_err(|e| e.to_string())?;
+    c07_segment_postings(b, positions).map_err(|e| e.to_string())
+}
+
+fn gen_posting_list(rng: &mut Rng) -> (Vec<u32>, Vec<u32>, String) {
+    let n = match rng.below(14) {
+        0 => 0usize,
+        1 => 1,
+        2 => 2,
+        3 => 127,
+        4 => 128,
+        5 => 129,
+        6 => 255,
+        7 => 256,
+        8 => 257,
+        9 => 384,
+        10 => 1000,
+        _ => rng.usize_below(701),
+    };
+    const MAXDOC: u64 = 2147483646;
+    let first = if rng.chance(1, 2) { 0u64 } else { rng.below(1000) };
+    let profile = rng.below(5);
+    let k = rng.below(23) as u32;
+    let mut gaps: Vec<u64> = (0..n.saturating_sub(1))
+        .map(|_| match profile {
+            0 => 1,
+            1 => 1u64 << k,
+            2 | 3 => 1 + rng.below(1u64 << k),
+            _ => 1 + rng.below(3),
+        })
+        .collect();
+    let pname = match profile { 0 => "gap1".to_string(), 1 => format!("const2^{k}"), 2 | 3 => format!("rand2^{k}"), _ => "huge".to_string() };
+    // keep below MAXDOC
+    let mut total: u64 = first + gaps.iter().sum::<u64>();
+    if total > MAXDOC {
+        let scale = total / MAXDOC + 1;
+        for g in gaps.iter_mut() {
+            *g = (*g / scale).max(1);
+        }
+        total = first + gaps.iter().sum::<u64>();
+    }
+    if profile == 4 && !gaps.is_empty() {
+        // one huge gap so that the last doc is near the maximum
+        let i = rng.usize_below(gaps.len());
+        gaps[i] += MAXDOC - total - rng.below(2);
+    }
+    let mut docs = vec![];
+    let mut d = first;
+    for i in 0..n {
+        if i > 0 {
+            d += gaps[i - 1];
+        }
+        docs.push(d as u32);
+    }
+    let tfp = rng.below(4);
+    let mut tfs: Vec<u32> = (0..n)
+        .map(|_| match tfp {
+            0 => 1,
+            1 => 1 + rng.below(5) as u32,
+            2 => *rng.pick(&[1u32, 1, 2, 255, 256, 257, 65535, 65536]),
+            _ => 1 + rng.below(3) as u32,
+        })
+        .collect();
+    if tfp == 3 && n > 0 {
+        // one large value per 128 block (sum of a block stays < 2^32)
+        for b in (0..n).step_by(128) {
+            let i = b + rng.usize_below((n - b).min(128));
+            tfs[i] = *rng.pick(&[1u32 << 31, (1u32 << 31) + 5, u32::MAX - 1000, 1 << 24, 70000]);
+        }
+    }
+    (docs, tfs, format!("{pname}/tf{tfp}"))
+}
+
+fn check_postings_codec(ctx: &mut Ctx, av: &Avail, opt: Opt, docs: &[u32], tfs_in: &[u32], programs: &[Vec<Op>], tag: &str) {
+    let n = docs.len();
+    let tfs: Vec<u32> = if opt == Opt::Basic { vec![1; n] } else { tfs_in.to_vec() };
+    let case = json!({"kind": "postings", "opt": opt.name(), "docs": docs, "tfs": tfs, "programs": programs.iter().map(|p| program_text(p)).collect::<Vec<_>>()});
+    ctx.report.case(&format!("postings|{}|{}|{}", opt.name(), fnv(nat_list(docs).as_bytes()), fnv(nat_list(&tfs).as_bytes())), n > 0);
+    ctx.report.count(&format!("codec:postings:{}", opt.name()));
+    ctx.report.count(&format!("codec:profile:{tag}"));
+    ctx.report.count(&format!("codec:len:{}", if [0usize, 1, 2, 127, 128, 129, 255, 256, 257, 384, 1000].contains(&n) { n.to_string() } else { "other".into() }));
+    let real = real_postings_bytes(opt, docs, &tfs);
+    let expected: Vec<(u32, u32, Vec<u32>)> = docs.iter().zip(&tfs).map(|(d, t)| (*d, *t, vec![])).collect();
+    // oracle: real round trip
+    match open_real(opt, opt, n as u32, &real, None) {
+        Ok(mut sp) => {
+            let got = read_all(&mut sp, false);
+            if got != expected || sp.doc_freq() != n as u32 {
+                ctx.report.violation("oracle", "C07:codec-roundtrip", format!("postings {} len {n}: serializer -> reader differs at {}", opt.name(), first_diff(&expected, &got)), case.clone());
+            }
+        }
+        Err(e) => ctx.report.violation("oracle", "C07:codec-roundtrip", format!("cannot open real postings bytes: {e}"), case.clone()),
+    }
+    // model enc: same bytes, and the real reader decodes the model's bytes
+    if av.has("enc") {
+        let m = ctx.model.ask(&format!("C07 enc {} {} {}", opt.name(), nat_list(docs), nat_list(&tfs)));
+        match unhex(&m) {
+            Some(mb) => {
+                let decoded = open_real(opt, opt, n as u32, &mb, None).map(|mut sp| read_all(&mut sp, false));
+                if decoded.as_ref().ok() != Some(&expected) {
+                    ctx.report.violation("model", "C07:model-postings-enc", format!("real reader on the model's bytes ({} len {n}): {}", opt.name(), match &decoded { Ok(g) => first_diff(&expected, g), Err(e) => e.clone() }), case.clone());
+                } else if mb != real {
+                    let at = mb.iter().zip(&real).position(|(a, b)| a != b).unwrap_or(mb.len().min(real.len()));
+                    ctx.report.violation("model", "C07:model-postings-enc", format!("model bytes differ from PostingsSerializer bytes at byte {at} ({} vs {} bytes), {} len {n}", mb.len(), real.len(), opt.name()), case.clone());
+                }
+            }
+            None => ctx.report.violation("model", "C07:model-postings-enc", format!("enc answered {}", short(&m)), case.clone()),
+        }
+    }
+    if av.has("dec") {
+        let m = ctx.model.ask(&format!("C07 dec {} {n} {}", opt.name(), hex(&real)));
+        let want = format!("{}|{}", nat_list(docs), nat_list(&tfs));
+        if m != want {
+            ctx.report.violation("model", "C07:model-postings-dec", format!("model decoding of the real bytes ({} len {n}) differs: {} vs input {}", opt.name(), short(&m), short(&want)), case.clone());
+        }
+    }
+    // positions for the positional mode when small enough
+    let total_tf: u64 = tfs.iter().map(|t| *t as u64).sum();
+    let mut rng = Rng::new(fnv(nat_list(docs).as_bytes()));
+    let per_doc: Option<Vec<Vec<u32>>> = if opt == Opt::Positions && total_tf <= 6000 {
+        Some(tfs.iter().map(|t| (0..*t).map(|_| rng.below(9) as u32).collect()).collect())
+    } else {
+        None
+    };
+    let pos_bytes = per_doc.as_ref().map(|p| real_positions_bytes(p));
+    let expected_pos: Vec<(u32, u32, Vec<u32>)> = match &per_doc {
+        Some(p) => expected.iter().zip(p).map(|(e, deltas)| {
+            let mut acc = 0u32;
+            (e.0, e.1, deltas.iter().map(|d| { acc += d; acc }).collect())
+        }).collect(),
+        None => expected.clone(),
+    };
+    for prog in programs {
+        ctx.report.count("codec:seek-program");
+        let with_pos = pos_bytes.is_some();
+        let got = match open_real(opt, opt, n as u32, &real, pos_bytes.clone()) {
+            Ok(mut sp) => run_program(&mut sp, prog, with_pos),
+            Err(e) => {
+                ctx.report.violation("oracle", "C07:codec-roundtrip", format!("cannot open: {e}"), case.clone());
+                continue;
+            }
+        };
+        let want = expected_program(&expected_pos, prog);
+        if got != want {
+            let key = if got.iter().zip(&want).all(|(g, w)| g.0 == w.0 && g.1 == w.1) { "C07:positions" } else { "C07:postings-seek" };
+            ctx.report.violation("oracle", key, format!("real SegmentPostings ({} len {n}) driven by {}: {}", opt.name(), short(&program_text(prog)), first_diff(&want, &got)), case.clone());
+        }
+        if av.has("seek") {
+            let m = ctx.model.ask(&format!("C07 seek {} {n} {} {}", opt.name(), hex(&real), program_text(prog)));
+            let real_docs: Vec<u32> = got.iter().map(|g| g.0).collect();
+            if m != nat_list(&real_docs) {
+                ctx.report.violation("model", "C07:model-seek", format!("program {} on {} len {n}: real {} model {}", short(&program_text(prog)), opt.name(), short(&nat_list(&real_docs)), short(&m)), case.clone());
+            }
+        }
+        if av.has("seekfull") {
+            // doc, term_freq and the index of the doc's first position delta (= sum of the
+            // term frequencies of all earlier docs; the positions oracle above pins the real one)
+            let m = ctx.model.ask(&format!("C07 seekfull {} {n} {} {}", opt.name(), hex(&real), program_text(prog)));
+            let entries: Vec<String> = got.iter().map(|g| {
+                if g.0 == TERMINATED {
+                    format!("{TERMINATED}:0:0")
+                } else {
+                    let i = docs.partition_point(|d| *d < g.0);
+                    let off: u64 = tfs[..i].iter().map(|t| *t as u64).sum();
+                    format!("{}:{}:{off}", g.0, g.1)
+                }
+            }).collect();
+            // the read offset is only meaningful (and only compared) for the positional mode
+            let strip = |s: &str| s.split(';').map(|e| e.rsplit_once(':').map(|x| x.0).unwrap_or(e).to_string()).collect::<Vec<_>>().join(";");
+            let same = if opt == Opt::Positions { m == entries.join(";") } else { strip(&m) == strip(&entries.join(";")) };
+            if !same {
+                ctx.report.violation("model", "C07:model-seek", format!("seekfull program {} on {} len {n}: real {} model {}", short(&program_text(prog)), opt.name(), short(&entries.join(";")), short(&m)), case.clone());
+            }
+        }
+    }
+    // lower requested options on the same bytes: docs identical
+    for req in [Opt::Basic, Opt::Freqs] {
+        if req >= opt {
+            continue;
+        }
+        if let Ok(mut sp) = open_real(opt, req, n as u32, &real, None) {
+            let got = read_all(&mut sp, false);
+            let want: Vec<(u32, u32, Vec<u32>)> = expected.iter().map(|e| (e.0, if req == Opt::Basic { 1 } else { e.1 }, vec![])).collect();
+            if got != want {
+                ctx.report.violation("oracle", "C07:codec-roundtrip", format!("postings {} requested as {}: {}", opt.name(), req.name(), first_diff(&want, &got)), case.clone());
+            }
+        }
+    }
+}
+
+fn gen_deltas(rng: &mut Rng) -> Vec<u32> {
+    let n = *rng.pick(&[0usize, 1, 2, 127, 128, 129, 255, 256, 257, 300, 384, 1000, 50]);
+    let mode = rng.below(6);
+    let width = rng.below(33) as u32;
+    (0..n)
+        .map(|i| match mode {
+            0 => 0,
+            1 => u32::MAX,
+            2 => {
+                if width == 0 { 0 } else { (rng.next_u64() & ((1u64 << width) - 1)) as u32 }
+            }
+            3 => rng.below(4) as u32,
+            4 => {
+                // a different width per block
+                let w = ((i / 128) * 7 + width as usize) % 33;
+                if w == 0 { 0 } else { (rng.next_u64() & ((1u64 << w) - 1)) as u32 }
+            }
+            _ => *rng.pick(&[0u32, 1, 127, 128, 255, 256, 16383, 16384, u32::MAX]),
+        })
+        .collect()
+}
+
+fn check_positions_codec(ctx: &mut Ctx, av: &Avail, deltas: &[u32], reads: &[(usize, usize)]) {
+    let n = deltas.len();
+    let case = json!({"kind": "positions", "deltas": deltas, "reads": reads.iter().map(|(o, l)| vec![*o, *l]).collect::<Vec<_>>()});
+    ctx.report.case(&format!("positions|{}", fnv(nat_list(deltas).as_bytes())), n > 0);
+    ctx.report.count("codec:positions");
+    ctx.report.count(&format!("codec:poslen:{n}"));
+    // split the writes arbitrarily: write_positions_delta may be called several times per term
+    let chunks: Vec<Vec<u32>> = deltas.chunks(37).map(|c| c.to_vec()).collect();
+    let real = real_positions_bytes(&chunks);
+    if av.has("pos_enc") {
+        let m = ctx.model.ask(&format!("C07 pos_enc {}", nat_list(deltas)));
+        if m != hex(&real) {
+            let mb = unhex(&m).unwrap_or_default();
+            let at = mb.iter().zip(&real).position(|(a, b)| a != b).unwrap_or(mb.len().min(real.len()));
+            ctx.report.violation("model", "C07:model-positions", format!("pos_enc of {n} deltas: bytes differ at {at} (model {} bytes, real {} bytes)", mb.len(), real.len()), case.clone());
+        }
+    }
+    let mut reader = match PositionReader::open(OwnedBytes::new(real.clone())) {
+        Ok(r) => r,
+        Err(e) => {
+            ctx.report.violation("oracle", "C07:codec-roundtrip", format!("PositionReader::open: {e}"), case);
+            return;
+        }
+    };
+    for (off, len) in reads {
+        ctx.report.count("codec:pos-read");
+        let mut out = vec![0u32; *len];
+        reader.read(*off as u64, &mut out);
+        if out[..] != deltas[*off..*off + *len] {
+            ctx.report.violation("oracle", "C07:codec-roundtrip", format!("PositionReader::read({off}, len {len}) of {n} deltas: {}", first_diff(&deltas[*off..*off + *len], &out)), case.clone());
+        }
+        if av.has("pos_read") {
+            let m = ctx.model.ask(&format!("C07 pos_read {} {off} {len}", hex(&real)));
+            if m != nat_list(&out) {
+                ctx.report.violation("model", "C07:model-positions", format!("pos_read({off},{len}) of {n} deltas: real {} model {}", short(&nat_list(&out)), short(&m)), case.clone());
+            }
+        }
+    }
+}
+
+fn gen_reads(rng: &mut Rng, n: usize) -> Vec<(usize, usize)> {
+    let mut reads = vec![];
+    if n == 0 {
+        return vec![(0, 0)];
+    }
+    let k = 3 + rng.usize_below(5);
+    let mut off = 0usize;
+    for _ in 0..k {
+        // mostly increasing offsets (the reader is optimised for that), sometimes backwards
+        off = if rng.chance(1, 5) { rng.usize_below(n) } else { (off + rng.usize_below(200)).min(n - 1) };
+        if rng.chance(1, 4) {
+            off = *rng.pick(&[0usize, 127, 128, 129, 255, 256, n - 1]);
+            off = off.min(n - 1);
+        }
+        let maxlen = n - off;
+        let len = (*rng.pick(&[0usize, 1, 2, 127, 128, 129, 256, 300, 1000, 5])).min(maxlen);
+        reads.push((off, len));
+        off += len;
+        if off >= n {
+            off = n - 1;
+        }
+    }
+    reads.push((0, n));
+    reads
+}
+
+fn gen_block(rng: &mut Rng) -> [u32; 128] {
+    let mut arr = [0u32; 128];
+    let real_len = if rng.chance(1, 2) { 128 } else { rng.usize_below(129) };
+    let k = rng.below(24) as u32;
+    let mut d: u64 = if rng.chance(1, 2) { 0 } else { rng.below(1000) };
+    for (i, a) in arr.iter_mut().enumerate() {
+        if i >= real_len {
+            *a = TERMINATED;
+            continue;
+        }
+        if i > 0 {
+            d += 1 + rng.below(1u64 << k);
+        }
+        *a = d.min(TERMINATED as u64 - 1 - (128 - i as u64)) as u32;
+    }
+    // keep strictly increasing over the real part after clamping
+    for i in 1..real_len {
+        if arr[i] <= arr[i - 1] {
+            arr[i] = arr[i - 1] + 1;
+        }
+    }
+    arr
+}
+
+fn check_blocksearch(ctx: &mut Ctx, av: &Avail, arr: &[u32; 128], targets: &[u32]) {
+    let case = json!({"kind": "blocksearch", "arr": arr.to_vec(), "targets": targets});
+    ctx.report.case(&format!("blocksearch|{}|{}", fnv(nat_list(&arr[..]).as_bytes()), fnv(nat_list(targets).as_bytes())), true);
+    ctx.report.count("codec:blocksearch");
+    for t in targets {
+        let real = c07_search_block(arr, *t);
+        let want = arr.iter().filter(|v| **v < *t).count();
+        if real != want {
+            ctx.report.violation("oracle", "C07:codec-roundtrip", format!("search_block(target {t}) = {real}, number of elements < target = {want}"), case.clone());
+        }
+        if av.has("blocksearch") {
+            let m = ctx.model.ask(&format!("C07 blocksearch {} {t}", nat_list(&arr[..])));
+            if m != real.to_string() {
+                ctx.report.violation("model", "C07:model-blocksearch", format!("search_block(target {t}): real {real} model {m}"), case.clone());
+            }
+        }
+    }
+}
+
+fn block_targets(rng: &mut Rng, arr: &[u32; 128]) -> Vec<u32> {
+    let last = arr[127];
+    let mut t = vec![0u32, last, arr[0]];
+    for _ in 0..10 {
+        let e = arr[rng.usize_below(128)];
+        t.push(e);
+        t.push(e.saturating_sub(1));
+        t.push(e.saturating_add(1));
+    }
+    for i in [7usize, 15, 16, 63, 64, 111, 126] {
+        t.push(arr[i]);
+        t.push(arr[i].saturating_add(1));
+    }
+    // the search assumes target <= last element
+    t.retain(|x| *x <= last);
+    t.sort();
+    t.dedup();
+    t
+}
+
+fn run_codecs(ctx: &mut Ctx, av: &Avail) {
+    let mut rng = ctx.rng.fork();
+    let mult = ctx.budget(4, 80);
+    // VInt
+    let mut ns: Vec<u64> = vec![0, 1, 127, 128, u32::MAX as u64, u32::MAX as u64 + 1, u64::MAX, u64::MAX - 1];
+    for k in 1..=9u32 {
+        let b = 1u64 << (7 * k);
+        ns.extend([b - 1, b, b + 1]);
+    }
+    for _ in 0..60 * mult {
+        let bits = 1 + rng.below(64);
+        ns.push(rng.next_u64() >> (64 - bits));
+    }
+    for n in ns.clone() {
+        check_vint(ctx, av, n);
+    }
+    // bit widths
+    let mut bs: Vec<u64> = vec![0, 1, 2, 3, u64::MAX];
+    for k in 1..64u32 {
+        bs.extend([(1u64 << k) - 1, 1u64 << k]);
+    }
+    for _ in 0..40 * mult {
+        let bits = 1 + rng.below(64);
+        bs.push(rng.next_u64() >> (64 - bits));
+    }
+    for n in bs {
+        check_numbits(ctx, av, n);
+    }
+    // fieldnorm table
+    let mut fns: Vec<u32> = vec![0, u32::MAX, u32::MAX - 1];
+    for id in 0..=255u8 {
+        check_fieldnorm_id(ctx, av, id);
+        let f = FieldNormReader::id_to_fieldnorm(id);
+        fns.extend([f.saturating_sub(1), f, f.saturating_add(1)]);
+    }
+    for _ in 0..100 * mult {
+        let bits = 1 + rng.below(32);
+        fns.push((rng.next_u64() >> (64 - bits)) as u32);
+    }
+    fns.sort();
+    fns.dedup();
+    for n in fns {
+        check_fieldnorm_n(ctx, av, n);
+    }
+    // posting lists
+    for _ in 0..70 * mult {
+        let (docs, tfs, tag) = gen_posting_list(&mut rng);
+        for opt in [Opt::Basic, Opt::Freqs, Opt::Positions] {
+            let np = 2 + rng.usize_below(3);
+            let programs: Vec<Vec<Op>> = (0..np).map(|_| gen_program(&mut rng, &docs)).collect();
+            let r = catch_unwind(AssertUnwindSafe(|| check_postings_codec(ctx, av, opt, &docs, &tfs, &programs, &tag)));
+            if let Err(p) = r {
+                ctx.report.violation("oracle", "C07:panic", format!("postings codec ({} len {}): {}", opt.name(), docs.len(), panic_msg(p)), json!({"kind": "postings", "opt": opt.name(), "docs": docs, "tfs": tfs, "programs": programs.iter().map(|p| program_text(p)).collect::<Vec<_>>()}));
+            }
+        }
+    }
+    // positions
+    for _ in 0..80 * mult {
+        let deltas = gen_deltas(&mut rng);
+        let reads = gen_reads(&mut rng, deltas.len());
+        let r = catch_unwind(AssertUnwindSafe(|| check_positions_codec(ctx, av, &deltas, &reads)));
+        if let Err(p) = r {
+            ctx.report.violation("oracle", "C07:panic", format!("positions codec ({} deltas): {}", deltas.len(), panic_msg(p)), json!({"kind": "positions", "deltas": deltas, "reads": reads.iter().map(|(o, l)| vec![*o, *l]).collect::<Vec<_>>()}));
+        }
+    }
+    // in-block search
+    for _ in 0..40 * mult {
+        let arr = gen_block(&mut rng);
+        let targets = block_targets(&mut rng, &arr);
+        let r = catch_unwind(AssertUnwindSafe(|| check_blocksearch(ctx, av, &arr, &targets)));
+        if let Err(p) = r {
+            ctx.report.violation("oracle", "C07:panic", format!("search_block: {}", panic_msg(p)), json!({"kind": "blocksearch", "arr": arr.to_vec(), "targets": targets}));
+        }
+    }
+}
+
+// ------------------------------------------------------------------------------------------
+// part (a): read-back on real segments
+// ------------------------------------------------------------------------------------------
+fn len_bucket(n: usize) -> String {
+    if n <= 2 || BOUNDARY_LENS.contains(&n) {
+        n.to_string()
+    } else if n < 127 {
+        "3-126".into()
+    } else if n < 4096 {
+        "130-4095".into()
+    } else {
+        ">4097".into()
+    }
+}
+
+fn postings_text(list: &[(u32, u32, Vec<u32>)]) -> String {
+    let mut s = String::new();
+    for (i, (d, tf, pos)) in list.iter().enumerate() {
+        if i > 0 {
+            s.push(',');
+        }
+        s.push_str(&format!("{d}:{tf}:"));
+        if pos.is_empty() {
+            s.push('-');
+        } else {
+            for (j, p) in pos.iter().enumerate() {
+                if j > 0 {
+                    s.push('.');
+                }
+                s.push_str(&p.to_string());
+            }
+        }
+    }
+    s
+}
+
+fn corpus_text(corpus: &Corpus) -> String {
+    if corpus.is_empty() {
+        return "-".into();
+    }
+    let mut s = String::new();
+    for (d, doc) in corpus.iter().enumerate() {
+        if d > 0 {
+            s.push(';');
+        }
+        for (v, value) in doc.iter().enumerate() {
+            if v > 0 {
+                s.push('/');
+            }
+            if value.is_empty() {
+                s.push('_');
+            }
+            for (t, tok) in value.iter().enumerate() {
+                if t > 0 {
+                    s.push(',');
+                }
+                s.push_str(&hex(&tok.term));
+                s.push_str(&format!(":{}:{}", tok.pos, tok.plen));
+            }
+        }
+    }
+    s
+}
+
+fn seg_case_json(state: u64, profile: &str, field: &str, term: &[u8]) -> J {
+    json!({"kind": "segment", "state": state.to_string(), "profile": profile, "field": field, "term": hex(term)})
+}
+
+fn typed_term(field: Field, v: &Val) -> Option<(Term, Vec<u8>)> {
+    Some(match v {
+        Val::U64(x) => (Term::from_field_u64(field, *x), enc_u64(*x)),
+        Val::I64(x) => (Term::from_field_i64(field, *x), enc_i64(*x)),
+        Val::F64(x) => (Term::from_field_f64(field, *x), enc_f64(*x)),
+        Val::Bool(x) => (Term::from_field_bool(field, *x), enc_bool(*x)),
+        Val::Date(x) => (Term::from_field_date_for_search(field, tantivy::DateTime::from_timestamp_nanos(*x)), enc_date(*x)),
+        Val::Bytes(b) => (Term::from_field_bytes(field, b), b.clone()),
+        Val::Ip(x) => (Term::from_field_ip_addr(field, std::net::Ipv6Addr::from(*x)), enc_ip(*x)),
+        Val::Facet(p) => {
+            let f = tantivy::schema::Facet::from_path(p.iter());
+            (Term::from_facet(field, &f), p.join("\u{0}").into_bytes())
+        }
+        _ => return None,
+    })
+}
+
+#[allow(clippy::too_many_arguments)]
+fn check_field(
+    ctx: &mut Ctx,
+    av: &Avail,
+    case: &SegCase,
+    state: u64,
+    fi: usize,
+    index: &tantivy::Index,
+    field: Field,
+    sr: &tantivy::SegmentReader,
+    rng: &mut Rng,
+    nontrivial_case: bool,
+) -> Result<(), String> {
+    let spec = &case.specs[fi];
+    let n = case.docs.len();
+    let is_json = spec.kind == Kind::Json;
+    let k = |key: &'static str| if is_json { "C07:json" } else { key };
+    let cj = |term: &[u8]| seg_case_json(state, &case.profile, &spec.name, term);
+    ctx.report.count(&format!("field:{}", spec.kind.name()));
+    if matches!(spec.kind, Kind::Text | Kind::Json) {
+        ctx.report.count(&format!("field:{}:{}:{}", spec.kind.name(), spec.opt.name(), spec.tokenizer));
+    }
+    ctx.report.count(if spec.fieldnorms { "fieldnorms:on" } else { "fieldnorms:off" });
+    let mut dropped = 0u64;
+    let (exp, corpus) = if is_json {
+        (invert_json(case, fi, index, &mut dropped), None)
+    } else {
+        let c = analyse_field(case, fi, index, &mut dropped);
+        (invert_rust(&c), Some(c))
+    };
+    ctx.report.count_n("tokens:dropped-longer-than-MAX_TOKEN_LEN", dropped);
+    let inv = sr.inverted_index(field).map_err(|e| e.to_string())?;
+
+    // 1. the term dictionary
+    let mut terms = vec![];
+    {
+        let mut st = inv.terms().stream().map_err(|e| e.to_string())?;
+        while st.advance() {
+            terms.push((st.key().to_vec(), st.value().clone()));
+        }
+    }
+    for w in terms.windows(2) {
+        if w[0].0 >= w[1].0 {
+            ctx.report.violation("oracle", k("C07:term-order"), format!("field {}: term stream not strictly increasing: {} then {}", spec.name, hex(&w[0].0), hex(&w[1].0)), cj(&w[1].0));
+        }
+    }
+    let got_set: BTreeSet<&Vec<u8>> = terms.iter().map(|t| &t.0).collect();
+    let want_set: BTreeSet<&Vec<u8>> = exp.map.keys().collect();
+    if got_set != want_set {
+        let missing = want_set.difference(&got_set).next();
+        let extra = got_set.difference(&want_set).next();
+        ctx.report.violation(
+            "oracle",
+            k("C07:term-set"),
+            format!("field {} ({}): dictionary has {} terms, expected {}; first missing {:?}, first unexpected {:?}", spec.name, spec.kind.name(), got_set.len(), want_set.len(), missing.map(|t| short(&hex(t))), extra.map(|t| short(&hex(t)))),
+            cj(missing.or(extra).map(|t| &t[..]).unwrap_or(&[])),
+        );
+    }
+
+    // 2. every term
+    let mut readback: Vec<(Vec<u8>, PostingList)> = vec![];
+    for (tbytes, ti) in &terms {
+        let Some(full) = exp.map.get(tbytes) else { continue };
+        let basic_term = exp.basic_terms.contains(tbytes);
+        let eff = if basic_term { Opt::Basic } else { spec.opt };
+        let can_pos = !(basic_term && spec.opt == Opt::Positions);
+        let want: PostingList = full.iter().map(|p| project(eff, p)).collect();
+        let len = want.len();
+        let what = |s: String| format!("field {} ({}, {}) term {} (list length {len}): {s}", spec.name, spec.kind.name(), spec.opt.name(), short(&hex(tbytes)));
+        let term = Term::from_field_bytes(field, tbytes);
+        let df2 = inv.doc_freq(&term).map_err(|e| e.to_string())?;
+        if ti.doc_freq as usize != len || df2 as usize != len {
+            ctx.report.violation("oracle", k("C07:doc-freq"), what(format!("term_info.doc_freq {} / doc_freq() {df2}, expected {len}", ti.doc_freq)), cj(tbytes));
+        }
+        let full_opt = IndexRecordOption::WithFreqsAndPositions;
+        let Some(mut sp) = inv.read_postings(&term, full_opt).map_err(|e| e.to_string())? else {
+            ctx.report.violation("oracle", k("C07:term-set"), what("read_postings returns None for a term of the dictionary".into()), cj(tbytes));
+            continue;
+        };
+        if sp.doc_freq() as usize != len || sp.size_hint() as usize != len {
+            ctx.report.violation("oracle", k("C07:doc-freq"), what(format!("SegmentPostings::doc_freq {} size_hint {}", sp.doc_freq(), sp.size_hint())), cj(tbytes));
+        }
+        let got = read_all(&mut sp, can_pos);
+        if got != want {
+            let only_pos = got.len() == want.len() && got.iter().zip(&want).all(|(g, w)| g.0 == w.0 && g.1 == w.1);
+            ctx.report.violation("oracle", k(if only_pos { "C07:positions" } else { "C07:postings-advance" }), what(format!("advance() read-back differs at {}", first_diff(&want, &got))), cj(tbytes));
+        }
+        // seek programs
+        let docs: Vec<u32> = want.iter().map(|p| p.0).collect();
+        let np = 2 + rng.usize_below(3);
+        for _ in 0..np {
+            let prog = gen_program(rng, &docs);
+            let mut sp = inv.read_postings(&term, full_opt).map_err(|e| e.to_string())?.unwrap();
+            let g = run_program(&mut sp, &prog, can_pos);
+            let w = expected_program(&want, &prog);
+            ctx.report.count("seek-programs");
+            if g != w {
+                let only_pos = g.iter().zip(&w).all(|(a, b)| a.0 == b.0 && a.1 == b.1);
+                let mut c = cj(tbytes);
+                c["program"] = json!(program_text(&prog));
+                ctx.report.violation("oracle", k(if only_pos { "C07:positions" } else { "C07:postings-seek" }), what(format!("program {}: {}", short(&program_text(&prog)), first_diff(&w, &g))), c);
+            }
+        }
+        // lower requested options
+        if len < 300 || rng.chance(1, 3) {
+            for req in [Opt::Basic, Opt::Freqs] {
+                let mut sp = inv.read_postings(&term, req.real()).map_err(|e| e.to_string())?.unwrap();
+                let g = read_all(&mut sp, true);
+                let w: PostingList = full.iter().map(|p| project(eff.min(req), p)).collect();
+                if g != w {
+                    ctx.report.violation("oracle", k("C07:postings-advance"), what(format!("requested {}: {}", req.name(), first_diff(&w, &g))), cj(tbytes));
+                }
+            }
+        }
+        // coverage
+        ctx.report.count(&format!("len:{}", len_bucket(len)));
+        for b in docs.chunks(128) {
+            let maxgap = b.windows(2).map(|w| w[1] - w[0] - 1).max().unwrap_or(0);
+            ctx.report.count(&format!("{}:{}", if b.len() == 128 { "gapbits" } else { "tail-gapbits" }, 32 - maxgap.leading_zeros()));
+        }
+        let maxtf = want.iter().map(|p| p.1).max().unwrap_or(0);
+        if maxtf >= 128 {
+            ctx.report.count("tf:>=128");
+        }
+        let npos: usize = want.iter().map(|p| p.2.len()).sum();
+        if npos > 128 {
+            ctx.report.count(&format!("positions-blocks:{}", (npos / 128).min(9)));
+        }
+        if basic_term {
+            ctx.report.count("json:non-text-term");
+        }
+        ctx.report.case(
+            &format!("{}|{}|{}|{}|{}", spec.kind.name(), spec.opt.name(), hex(tbytes), len, fnv(postings_text(&want).as_bytes())),
+            nontrivial_case && len > 0,
+        );
+        if is_json {
+            ctx.report.count("json:pairs");
+        }
+        readback.push((tbytes.clone(), got));
+    }
+
+    // typed Term builders reach the same dictionary entry
+    let mut seen = 0;
+    for doc in &case.docs {
+        for (f, v) in doc {
+            if *f != fi || seen >= 24 {
+                continue;
+            }
+            if let Some((t, enc)) = typed_term(field, v) {
+                seen += 1;
+                let want = exp.map.get(&enc).map(|l| l.len()).unwrap_or(0);
+                let got = inv.doc_freq(&t).map_err(|e| e.to_string())?;
+                ctx.report.count("typed-term-lookups");
+                if t.serialized_value_bytes() != &enc[..] || got as usize != want {
+                    ctx.report.violation("oracle", k("C07:doc-freq"), format!("field {} ({}): typed Term bytes {} vs independent encoding {}; doc_freq {got} expected {want}", spec.name, spec.kind.name(), hex(t.serialized_value_bytes()), hex(&enc)), cj(&enc));
+                }
+            }
+        }
+    }
+    // absent terms
+    let mut absent: Vec<Vec<u8>> = vec![b"zzz-absent".to_vec(), vec![], vec![0xff; 9]];
+    if let Some((t, _)) = terms.first() {
+        let mut x = t.clone();
+        x.push(0);
+        absent.push(x);
+    }
+    for a in absent {
+        if exp.map.contains_key(&a) {
+            continue;
+        }
+        let t = Term::from_field_bytes(field, &a);
+        let ti = inv.get_term_info(&t).map_err(|e| e.to_string())?;
+        let df = inv.doc_freq(&t).map_err(|e| e.to_string())?;
+        let p = inv.read_postings(&t, IndexRecordOption::WithFreqsAndPositions).map_err(|e| e.to_string())?;
+        ctx.report.count("len:0");
+        ctx.report.case(&format!("{}|absent|{}", spec.name, hex(&a)), false);
+        if ti.is_some() || df != 0 || p.is_some() {
+            ctx.report.violation("oracle", k("C07:term-set"), format!("field {}: absent term {} is found (doc_freq {df})", spec.name, hex(&a)), cj(&a));
+        }
+    }
+
+    // 3. total_num_tokens
+    if inv.total_num_tokens() != exp.total_tokens {
+        ctx.report.violation("oracle", k("C07:total-num-tokens"), format!("field {} ({}): total_num_tokens {} expected {}", spec.name, spec.kind.name(), inv.total_num_tokens(), exp.total_tokens), cj(&[]));
+    }
+
+    // 4. fieldnorms
+    let mut real_ids: Option<Vec<u8>> = None;
+    if spec.fieldnorms {
+        let fr = sr.get_fieldnorms_reader(field).map_err(|e| e.to_string())?;
+        let mut ids = vec![];
+        for d in 0..n as u32 {
+            let id = fr.fieldnorm_id(d);
+            let f = fr.fieldnorm(d);
+            let want_id = FieldNormReader::fieldnorm_to_id(exp.tokens_per_doc[d as usize]);
+            if id != want_id || f != FieldNormReader::id_to_fieldnorm(want_id) {
+                ctx.report.violation("oracle", k("C07:fieldnorm"), format!("field {} doc {d}: fieldnorm_id {id} fieldnorm {f}; {} tokens expect id {want_id}", spec.name, exp.tokens_per_doc[d as usize]), cj(&[]));
+            }
+            ids.push(id);
+        }
+        if fr.num_docs() as usize != n {
+            ctx.report.violation("oracle", k("C07:fieldnorm"), format!("field {}: fieldnorm reader has {} docs, segment {n}", spec.name, fr.num_docs()), cj(&[]));
+        }
+        ctx.report.count("fieldnorm-fields-checked");
+        real_ids = Some(ids);
+    } else {
+        match sr.get_fieldnorms_reader(field) {
+            Ok(fr) => ctx.report.count(&format!("fieldnorms-off:reader-constant-id-{}", fr.fieldnorm_id(0))),
+            Err(_) => ctx.report.count("fieldnorms-off:reader-error"),
+        }
+    }
+
+    // model
+    if let Some(corpus) = corpus {
+        if !av.has("invert") {
+            ctx.report.count("model:unavailable");
+        } else if (exp.map.len() as u64) * exp.total_tokens > 20_000_000 {
+            ctx.report.count("model:invert-skipped-cost");
+        } else {
+            let ct = corpus_text(&corpus);
+            let req = if ct.is_empty() { format!("C07 invert {}", spec.opt.name()) } else { format!("C07 invert {} {ct}", spec.opt.name()) };
+            let resp = ctx.model.ask(&req);
+            ctx.report.count("model:invert-requests");
+            let parts: Vec<&str> = resp.split('|').collect();
+            if parts.len() != 3 {
+                ctx.report.violation("model", "C07:model-invert", format!("field {}: model answered {}", spec.name, short(&resp)), cj(&[]));
+            } else {
+                let entries: Vec<String> = readback.iter().map(|(t, l)| format!("{}={}", hex(t), postings_text(l))).collect();
+                let real_terms = if entries.is_empty() { "-".to_string() } else { entries.join(";") };
+                if parts[0] != real_terms {
+                    let m: Vec<&str> = parts[0].split(';').collect();
+                    let i = (0..m.len().max(entries.len())).find(|i| m.get(*i).copied() != entries.get(*i).map(|s| s.as_str())).unwrap_or(0);
+                    let t = readback.get(i).map(|r| r.0.clone()).unwrap_or_default();
+                    ctx.report.violation("model", "C07:model-invert", format!("field {} ({}, {}): entry {i} of {}: read-back {:?} model {:?}", spec.name, spec.kind.name(), spec.opt.name(), entries.len(), entries.get(i).map(|s| short(s)), m.get(i).map(|s| short(s))), cj(&t));
+                }
+                if parts[1] != inv.total_num_tokens().to_string() {
+                    ctx.report.violation("model", "C07:model-invert", format!("field {}: total_num_tokens real {} model {}", spec.name, inv.total_num_tokens(), parts[1]), cj(&[]));
+                }
+                if let Some(ids) = &real_ids {
+                    if parts[2] != nat_list(ids) {
+                        ctx.report.violation("model", "C07:model-invert", format!("field {}: fieldnorm ids real {} model {}", spec.name, short(&nat_list(ids)), short(parts[2])), cj(&[]));
+                    }
+                }
+            }
+        }
+    }
+    Ok(())
+}
+
+fn check_segment(ctx: &mut Ctx, av: &Avail, state: u64, profile: &str) {
+    let mut rng = Rng(state);
+    let case = gen_case(&mut rng, profile);
+    let n = case.docs.len();
+    ctx.report.count(&format!("segment:{profile}"));
+    ctx.report.count_n("segment-docs", n as u64);
+    let cj = seg_case_json(state, profile, "", &[]);
+    let (index, fields) = match catch_unwind(AssertUnwindSafe(|| build_index(&case))) {
+        Ok(Ok(x)) => x,
+        Ok(Err(e)) => {
+            ctx.report.violation("oracle", "C07:index-error", format!("indexing {n} docs failed: {e}"), cj);
+            return;
+        }
+        Err(p) => {
+            ctx.report.violation("oracle", "C07:panic", format!("indexing {n} docs panicked: {}", panic_msg(p)), cj);
+            return;
+        }
+    };
+    let searcher = match index.reader() {
+        Ok(r) => r.searcher(),
+        Err(e) => {
+            ctx.report.violation("oracle", "C07:index-error", format!("cannot open reader: {e}"), cj);
+            return;
+        }
+    };
+    let segs = searcher.segment_readers();
+    if segs.len() != 1 || segs[0].max_doc() as usize != n || segs[0].num_docs() as usize != n {
+        ctx.report.violation("oracle", "C07:segment-count", format!("{} segments, max_doc {:?}, expected one segment of {n} docs", segs.len(), segs.first().map(|s| s.max_doc())), cj);
+        return;
+    }
+    let nontrivial = case.specs.len() >= 2 && n >= 2;
+    for fi in 0..case.specs.len() {
+        let mut frng = rng.fork();
+        let r = catch_unwind(AssertUnwindSafe(|| check_field(ctx, av, &case, state, fi, &index, fields[fi], &segs[0], &mut frng, nontrivial)));
+        match r {
+            Ok(Ok(())) => {}
+            Ok(Err(e)) => ctx.report.violation("oracle", "C07:read-error", format!("field {}: reading failed: {e}", case.specs[fi].name), seg_case_json(state, profile, &case.specs[fi].name, &[])),
+            Err(p) => ctx.report.violation("oracle", "C07:panic", format!("field {} ({}, {}): {}", case.specs[fi].name, case.specs[fi].kind.name(), case.specs[fi].opt.name(), panic_msg(p)), seg_case_json(state, profile, &case.specs[fi].name, &[])),
+        }
+    }
+    if ctx.report.samples.len() < 4 && (profile != "small" || ctx.report.samples.is_empty()) {
+        ctx.report.sample(json!({
+            "segment": profile, "docs": n,
+            "fields": case.specs.iter().map(|s| format!("{}:{}:{}:{}{}", s.name, s.kind.name(), s.opt.name(), s.tokenizer, if s.fieldnorms { ":norms" } else { "" })).collect::<Vec<_>>(),
+            "first_doc_values": case.docs[0].iter().take(4).map(|(f, v)| format!("{}={}", case.specs[*f].name, short(&format!("{v:?}")))).collect::<Vec<_>>(),
+        }));
+    }
+}
+
+// ------------------------------------------------------------------------------------------
+// replay / run
+// ------------------------------------------------------------------------------------------
+fn u32s(v: &J) -> Vec<u32> {
+    v.as_array().map(|a| a.iter().filter_map(|x| x.as_u64().map(|x| x as u32)).collect()).unwrap_or_default()
+}
+
+fn replay(ctx: &mut Ctx, av: &Avail, case: &J) {
+    let kind = case["kind"].as_str().unwrap_or("");
+    match kind {
+        "segment" => {
+            let state: u64 = case["state"].as_str().and_then(|s| s.parse().ok()).unwrap_or(0);
+            check_segment(ctx, av, state, case["profile"].as_str().unwrap_or("small"));
+        }
+        "vint" => check_vint(ctx, av, case["n"].as_str().and_then(|s| s.parse().ok()).unwrap_or(0)),
+        "numbits" => check_numbits(ctx, av, case["n"].as_str().and_then(|s| s.parse().ok()).unwrap_or(0)),
+        "fieldnorm-id" => check_fieldnorm_id(ctx, av, case["id"].as_u64().unwrap_or(0) as u8),
+        "fieldnorm-n" => check_fieldnorm_n(ctx, av, case["n"].as_u64().unwrap_or(0) as u32),
+        "postings" => {
+            let opt = Opt::from_name(case["opt"].as_str().unwrap_or("")).unwrap_or(Opt::Basic);
+            let programs: Vec<Vec<Op>> = case["programs"].as_array().map(|a| a.iter().filter_map(|p| p.as_str().and_then(parse_program)).collect()).unwrap_or_default();
+            let (docs, tfs) = (u32s(&case["docs"]), u32s(&case["tfs"]));
+            if let Err(p) = catch_unwind(AssertUnwindSafe(|| check_postings_codec(ctx, av, opt, &docs, &tfs, &programs, "replay"))) {
+                ctx.report.violation("oracle", "C07:panic", format!("postings codec: {}", panic_msg(p)), case.clone());
+            }
+        }
+        "positions" => {
+            let deltas = u32s(&case["deltas"]);
+            let reads: Vec<(usize, usize)> = case["reads"].as_array().map(|a| a.iter().map(|r| (r[0].as_u64().unwrap_or(0) as usize, r[1].as_u64().unwrap_or(0) as usize)).collect()).unwrap_or_default();
+            if let Err(p) = catch_unwind(AssertUnwindSafe(|| check_positions_codec(ctx, av, &deltas, &reads))) {
+                ctx.report.violation("oracle", "C07:panic", format!("positions codec: {}", panic_msg(p)), case.clone());
+            }
+        }
+        "blocksearch" => {
+            let a = u32s(&case["arr"]);
+            if let Ok(arr) = <[u32; 128]>::try_from(a) {
+                check_blocksearch(ctx, av, &arr, &u32s(&case["targets"]));
+            }
+        }
+        _ => ctx.report.notes.push(format!("replay: unknown case kind {kind:?}")),
+    }
+}
 
 pub fn run(ctx: &mut Ctx) {
-    ctx.report.notes.push("C07: harness not built yet".into());
+    ctx.report.rule = "cases = (field, term) pairs of generated one-segment indexes and codec inputs; a (field, term) pair is \
+        non-trivial if its segment has >= 2 fields and >= 2 docs and the term's posting list is non-empty (distinct by field \
+        kind, record option, term bytes and the expected postings); a codec case is non-trivial if its list is non-empty"
+        .into();
+    ctx.report.correspondence_obligations = vec![
+        "term dictionary stream of every indexed field = distinct expected term bytes, strictly increasing (independent encodings per field type)".into(),
+        "term_info.doc_freq = inv.doc_freq = SegmentPostings::doc_freq/size_hint = expected number of docs".into(),
+        "postings read by advance(): (doc, term_freq, positions) = independent Rust inversion projected to the field's record option".into(),
+        "postings driven by generated advance/seek programs = expected cursor semantics (incl. positions after seeks)".into(),
+        "postings requested with lower IndexRecordOption: same docs".into(),
+        "inv.total_num_tokens = number of indexed tokens; fieldnorm_id(doc) = fieldnorm_to_id(#tokens of the doc)".into(),
+        "read-back (terms, postings, total_num_tokens, fieldnorm ids) = Lean model `invert` of the same analysed corpus".into(),
+        "VInt bytes / decoding incl. truncated inputs = model".into(),
+        "compute_num_bits = model".into(),
+        "fieldnorm_to_id / id_to_fieldnorm = model table; bracket and monotonicity on the real code".into(),
+        "model `enc` bytes = PostingsSerializer bytes and decode through the real BlockSegmentPostings; model `dec` of real bytes = input".into(),
+        "model `seek` = real SegmentPostings driven by the same program on the real bytes".into(),
+        "model `pos_enc` bytes = PositionSerializer bytes; model `pos_read` = PositionReader::read".into(),
+        "model `blocksearch` = postings::search_block = number of elements < target".into(),
+    ];
+    let av = probe(ctx);
+    if let Some(case) = ctx.replay.clone() {
+        replay(ctx, &av, &case);
+        return;
+    }
+    assert_eq!(tantivy::tokenizer::MAX_TOKEN_LEN, 65530);
+    // part (a)
+    let plan: [(&str, u64); 4] = [("small", ctx.budget(300, 6000)), ("medium", ctx.budget(60, 1200)), ("big", ctx.budget(8, 120)), ("huge", ctx.budget(3, 20))];
+    for (profile, count) in plan {
+        for _ in 0..count {
+            let state = ctx.rng.fork().0;
+            check_segment(ctx, &av, state, profile);
+        }
+    }
+    // part (b)
+    run_codecs(ctx, &av);
+    ctx.report.sample(json!({"codec": "postings", "example": "C07 enc freqs 1,5,9 2,1,7 -> 818484828187 (= PostingsSerializer bytes); C07 dec basic 3 818484 -> 1,5,9|1,1,1"}));
 }
